@@ -59,7 +59,7 @@ func (r *RedisInputStream) ensureFill() error {
 }
 
 func (r *RedisInputStream) readLine() (string, error) {
-	buf := ""
+	buf := make([]byte, 0)
 	for {
 		err := r.ensureFill()
 		if err != nil {
@@ -77,16 +77,15 @@ func (r *RedisInputStream) readLine() (string, error) {
 			if c == '\n' {
 				break
 			}
-			buf += string(b)
-			buf += string(c)
+			buf = append(buf, b, c)
 		} else {
-			buf += string(b)
+			buf = append(buf, b)
 		}
 	}
-	if buf == "" {
+	if len(buf) == 0 {
 		return "", newConnectError("It seems like server has closed the connection.")
 	}
-	return buf, nil
+	return string(buf), nil
 }
 
 func (r *RedisInputStream) readLineBytes() ([]byte, error) {
